@@ -1,5 +1,8 @@
-(* C05 — pinned statements; proofs live in Proofs/. *)
+(* C05 — Membership views stay consistent and are cleaned up when a user goes away.
+   Pinned statements; proofs in Proofs/ServerInv*.v.  `ops_ok` only demands that Open uses a
+   handler id that is not a live authenticated connection (ConnManager hands out fresh ids). *)
 From NW Require Import Base.Bytes Model.SchemaTypes Gen.Schema Model.Codec Model.Ids Model.Server.
+From NW Require Import Proofs.ServerInvBase Proofs.ServerInv Proofs.ServerUniq Proofs.ServerInvCor.
 
 (* the model computes: a client connects, identifies and creates a channel *)
 Example C05_model_smoke :
@@ -11,3 +14,58 @@ Example C05_model_smoke :
                                Bytes 1 (bs "JOIN id=1 channel=!c1@localhost" ++ [NL]) [] []] in
   map fst (chans s) = [bs "c1"] /\ map fst (router s) = [bs "alice"].
 Proof. vm_compute. split; reflexivity. Qed.
+
+(* In every reachable state — for every history of client actions, every byte string sent, every
+   script of modulator outcomes (failures included) and every new-owner choice — the two membership
+   views agree, no channel is empty, every channel has exactly one owner who is a member, the
+   reader cache equals the members filtered by the read ACL, and every member has a live connection. *)
+Theorem C05_views_agree_reachable : forall cfg ops,
+  ops_ok cfg init ops -> InvSpec cfg (run_state cfg init ops).
+Proof. intros cfg ops H. apply Inv_spec. apply inv_reachable. exact H. Qed.
+
+Theorem C05_index_is_membership : forall cfg ops u cf,
+  ops_ok cfg init ops ->
+  let s := run_state cfg init ops in
+  smem cf (match alookup u (inch s) with Some l => l | None => [] end) = true <->
+  exists hd ch, chan_parse cf = Some (hd, domain cfg) /\ alookup hd (chans s) = Some ch /\
+                nmem {| nu := u; nd := domain cfg |} (ch_members ch) = true.
+Proof. intros cfg ops u cf H. exact (sp_index _ _ (C05_views_agree_reachable cfg ops H) u cf). Qed.
+
+Theorem C05_no_empty_channel : forall cfg ops hd ch,
+  ops_ok cfg init ops -> alookup hd (chans (run_state cfg init ops)) = Some ch -> ch_members ch <> [].
+Proof. intros cfg ops hd ch H. exact (sp_nonempty _ _ (C05_views_agree_reachable cfg ops H) hd ch). Qed.
+
+(* When the last connection of a user ends, whatever the modulator does with the notifications,
+   the user is removed from every channel, from the reverse index and from the router. *)
+Theorem C05_disconnect_cleans_up : forall cfg s h cn n sc hi,
+  Inv cfg s ->
+  nlookup h (conns s) = Some cn -> c_nid cn = Some n -> alookup (nu n) (router s) = Some [h] ->
+  let s' := fst (step cfg s (Hangup h sc hi)) in
+  alookup (nu n) (inch s') = None /\
+  alookup (nu n) (router s') = None /\
+  forall hd ch, alookup hd (chans s') = Some ch -> nmem n (ch_members ch) = false.
+Proof. exact hangup_last_connection_cleans_up. Qed.
+
+(* a JOIN of a non-existent channel creates it afresh: default configuration, empty ACLs, joiner owns it *)
+Theorem C05_fresh_channel_defaults : forall cfg h me m c c' hd dom,
+  chan_parse (get_str m "channel") = Some (hd, dom) ->
+  alookup hd (chans (st c)) = None ->
+  h_join cfg h me m c = (c', None) ->
+  exists ch, alookup hd (chans (st c')) = Some ch /\
+    ch_owner ch = Some me /\ ch_members ch = [me] /\ ch_targets ch = [me] /\
+    ch_join ch = [] /\ ch_pub ch = [] /\ ch_read ch = [] /\
+    ch_max_clients ch = max_clients cfg /\ ch_max_payload ch = max_payload_cfg cfg.
+Proof. exact fresh_channel_defaults. Qed.
+
+(* a refused JOIN (any reason, including a failed announcement) changes nothing *)
+Theorem C05_refused_join_changes_nothing : forall cfg h me m c c' e,
+  h_join cfg h me m c = (c', Some e) -> st c' = st c.
+Proof. exact refused_join_changes_nothing. Qed.
+
+(* the side condition is exactly what is needed: re-opening a live authenticated handler id would break it *)
+Theorem C05_invariant_side_condition_tight : forall cfg s o,
+  Inv cfg s -> (op_ok cfg s o <-> Inv cfg (fst (step cfg s o))).
+Proof. exact op_ok_iff. Qed.
+
+Print Assumptions C05_views_agree_reachable.
+Print Assumptions C05_disconnect_cleans_up.
